@@ -148,5 +148,524 @@ structure BInv (b : BState) : Prop where
     (∀ id wk, b.g.adm.kw.get? id = some wk → id < b.g.nextId)
   maxFixed : b.g.adm.max = b.g.cfg.maxWeight
 
+/-! ## 2  the actions as relations
+
+  `workerAct`, `sweeperAct` and `clientAct` are re-stated as inductive relations with one constructor per branch
+  (`workerAct_trans`, …), so that every invariant below is proved by one `cases` over the branches. -/
+
+/-- the ways `loopDecide` can end -/
+theorem loopDecide_spec {b : BState} {c : PutCmd} {e : Nat} {s : List SKey} {space : Int} {o : Oracle}
+    {b' : BState} {o' : Oracle} (h : loopDecide b c e s space o = .ok (b', o')) :
+    (b' = { b with w := .insert c } ∧ space ≥ c.w) ∨ b' = { b with w := .emptySpace c } ∨
+    b' = rejectCmd b c.h (.rejected .noSpace) ∨ ∃ s' k, b' = { b with w := .evRemove c e s' k } := by
+  unfold loopDecide at h
+  split at h
+  · simp only [Except.ok.injEq, Prod.mk.injEq] at h
+    exact Or.inl ⟨h.1.symm, by assumption⟩
+  · split at h
+    · cases h
+    · split at h
+      · cases h
+      · simp only [Except.ok.injEq, Prod.mk.injEq] at h
+        exact Or.inr (Or.inl h.1.symm)
+    · split at h
+      · cases h
+      · split at h
+        · cases h
+        · split at h
+          · simp only [Except.ok.injEq, Prod.mk.injEq] at h
+            exact Or.inr (Or.inr (Or.inl h.1.symm))
+          · simp only [Except.ok.injEq, Prod.mk.injEq] at h
+            exact Or.inr (Or.inr (Or.inr ⟨_, _, h.1.symm⟩))
+
+/-- One action of the command worker, as a relation: one constructor per branch of `workerAct`. -/
+inductive WTrans (b : BState) : BState → Prop where
+  | recvPut (c : PutCmd) (q) : b.w = .recv → b.g.queue = (cmdOfPut c, c.h) :: q →
+      WTrans b { b with g := { b.g with queue := q }, w := .present c }
+  | recvUpdate (id w h q) : b.w = .recv → b.g.queue = (.updateWeight id w, h) :: q →
+      WTrans b { b with g := { b.g with queue := q }, w := .update id w h }
+  | recvDelete (k h q) : b.w = .recv → b.g.queue = (.delete k, h) :: q →
+      WTrans b { b with g := { b.g with queue := q }, w := .delStore k h }
+  | recvShutdown (h q) : b.w = .recv → b.g.queue = (.shutdown, h) :: q →
+      WTrans b { b with g := { b.g with queue := q, acks := setAck b.g.acks h .accepted }, w := .drain }
+  | drain (cmd h q) : b.w = .drain → b.g.queue = (cmd, h) :: q →
+      WTrans b { b with g := { b.g with queue := q, acks := setAck b.g.acks h .shuttingDown }, w := .drain }
+  | presentExists (c) : b.w = .present c → WTrans b (finishCmd b c.h (.rejected .keyAlreadyExists))
+  | presentHeavy (c) : b.w = .present c → WTrans b (rejectCmd b c.h (.rejected .tooHeavy))
+  | presentOk (c) : b.w = .present c → WTrans b { b with w := .space0 c }
+  | space0Fits (c) : b.w = .space0 c → wuFree b .worker = true → b.g.adm.max - b.g.adm.used ≥ c.w →
+      WTrans b { b with w := .insert c }
+  | space0Sample (c e) : b.w = .space0 c → wuFree b .worker = true →
+      WTrans b { b with w := .sampleInit c (b.g.adm.max - b.g.adm.used) e }
+  | initInsert (c e space) : b.w = .sampleInit c space e → space ≥ c.w → WTrans b { b with w := .insert c }
+  | initEmpty (c e space) : b.w = .sampleInit c space e → WTrans b { b with w := .emptySpace c }
+  | initReject (c e space) : b.w = .sampleInit c space e → WTrans b (rejectCmd b c.h (.rejected .noSpace))
+  | initVictim (c e space s' k) : b.w = .sampleInit c space e → WTrans b { b with w := .evRemove c e s' k }
+  | fillInsert (c e s space) : b.w = .fill c e s space → space ≥ c.w → WTrans b { b with w := .insert c }
+  | fillEmpty (c e s space) : b.w = .fill c e s space → WTrans b { b with w := .emptySpace c }
+  | fillReject (c e s space) : b.w = .fill c e s space → WTrans b (rejectCmd b c.h (.rejected .noSpace))
+  | fillVictim (c e s space s' k) : b.w = .fill c e s space → WTrans b { b with w := .evRemove c e s' k }
+  | evRemoveSome (c e s victim wk) : b.w = .evRemove c e s victim → b.g.adm.kw.get? victim.id = some wk →
+      WTrans b { b with g := { b.g with adm := { b.g.adm with kw := b.g.adm.kw.del victim.id } }, w := .evSub c e s victim.id wk }
+  | evRemoveNone (c e s victim) : b.w = .evRemove c e s victim → b.g.adm.kw.get? victim.id = none →
+      WTrans b { b with w := .evSpace c e s }
+  | evSub (c e s id wk) : b.w = .evSub c e s id wk → wuFree b .worker = true →
+      WTrans b { b with g := { b.g with adm := { b.g.adm with used := b.g.adm.used - wk.weight } }, wuOwner := some .worker, w := .evStore c e s id wk }
+  | evStore (c e s id wk) : b.w = .evStore c e s id wk →
+      WTrans b { b with g := applyEvict b.g (id, wk.key, wk.weight), wuOwner := none, w := .evSpace c e s }
+  | evSpace (c e s) : b.w = .evSpace c e s → wuFree b .worker = true →
+      WTrans b { b with w := .fill c e s (b.g.adm.max - b.g.adm.used) }
+  | emptyFits (c) : b.w = .emptySpace c → wuFree b .worker = true → b.g.adm.max - b.g.adm.used ≥ c.w →
+      WTrans b { b with w := .insert c }
+  | emptyReject (c) : b.w = .emptySpace c → wuFree b .worker = true →
+      WTrans b (rejectCmd b c.h (.rejected .noSpace))
+  | insert (c) : b.w = .insert c →
+      WTrans b { b with g := { b.g with adm := { b.g.adm with kw := b.g.adm.kw.set c.id { key := c.k, hash := c.hash, weight := c.w } } }, w := .add c }
+  | add (c) : b.w = .add c → wuFree b .worker = true →
+      WTrans b { b with g := { b.g with adm := { b.g.adm with used := b.g.adm.used + c.w }, stats := { b.g.stats with weightAdded := (b.g.stats.weightAdded + c.w.toNat) % u64Mod } }, w := .storePut c }
+  | storePutPlain (c) : b.w = .storePut c → c.ttl = none →
+      WTrans b (finishCmd { b with g := { b.g with store := b.g.store.set c.k { value := c.v, id := c.id, expiry := none, soft := false }, stats := { b.g.stats with keysAdded := b.g.stats.keysAdded + 1 } } } c.h .accepted)
+  | storePutPanic (c t) : b.w = .storePut c → c.ttl = some t →
+      WTrans b { b with w := .dead, g := { b.g with worker := .dead, queue := [] } }
+  | storePutTtl (c t e) : b.w = .storePut c → c.ttl = some t →
+      WTrans b { b with g := { b.g with store := b.g.store.set c.k { value := c.v, id := c.id, expiry := some e, soft := false }, stats := { b.g.stats with keysAdded := b.g.stats.keysAdded + 1 } }, w := .ttlPut c e }
+  | ttlPut (c e) : b.w = .ttlPut c e → ttlFree b (shardOf b.g.cfg e) = true →
+      WTrans b (finishCmd { b with g := ttlPut b.g c.id e } c.h .accepted)
+  | updateAbsent (id w h) : b.w = .update id w h → wuFree b .worker = true → b.g.adm.kw.get? id = none →
+      WTrans b (finishCmd b h .accepted)
+  | updateApplied (id w h wk) : b.w = .update id w h → wuFree b .worker = true → b.g.adm.kw.get? id = some wk →
+      WTrans b (finishCmd { b with g := { b.g with adm := { b.g.adm with used := b.g.adm.used + (w - wk.weight), kw := b.g.adm.kw.set id { wk with weight := w } }, stats := updateWeightStats { b.g.stats with keysUpdated := b.g.stats.keysUpdated + 1 } w wk.weight } } h .accepted)
+  | updatePanic (id w h) : b.w = .update id w h → wuFree b .worker = true →
+      WTrans b { b with w := .dead, g := { b.g with worker := .dead, queue := [] } }
+  | delStoreNone (k h) : b.w = .delStore k h → WTrans b (finishCmd b h (.rejected .keyDoesNotExist))
+  | delStoreSome (k h e) : b.w = .delStore k h → b.g.store.get? k = some e →
+      WTrans b { b with g := { b.g with store := b.g.store.del k, stats := { b.g.stats with keysDeleted := b.g.stats.keysDeleted + 1 } }, w := .delKw e.id e.expiry h }
+  | delKwSome (id exp h wk) : b.w = .delKw id exp h → b.g.adm.kw.get? id = some wk →
+      WTrans b { b with g := { b.g with adm := { b.g.adm with kw := b.g.adm.kw.del id } }, w := .delSub id wk exp h }
+  | delKwNoneTtl (id e h) : b.w = .delKw id (some e) h → WTrans b { b with w := .delTtl id e h }
+  | delKwNoneDone (id h) : b.w = .delKw id none h → WTrans b (finishCmd b h .accepted)
+  | delSubTtl (id wk e h) : b.w = .delSub id wk (some e) h → wuFree b .worker = true →
+      WTrans b { b with g := { b.g with adm := { b.g.adm with used := b.g.adm.used - wk.weight }, stats := { b.g.stats with weightRemoved := (b.g.stats.weightRemoved + wk.weight.toNat) % u64Mod } }, w := .delTtl id e h }
+  | delSubDone (id wk h) : b.w = .delSub id wk none h → wuFree b .worker = true →
+      WTrans b (finishCmd { b with g := { b.g with adm := { b.g.adm with used := b.g.adm.used - wk.weight }, stats := { b.g.stats with weightRemoved := (b.g.stats.weightRemoved + wk.weight.toNat) % u64Mod } } } h .accepted)
+  | delTtl (id e h) : b.w = .delTtl id e h → ttlFree b (shardOf b.g.cfg e) = true →
+      WTrans b (finishCmd { b with g := ttlDelete b.g id e } h .accepted)
+
+theorem workerAct_trans {b b' : BState} {o o' : Oracle} (h : workerAct b o = .ok (b', o')) : WTrans b b' := by
+  cases hw : b.w with
+  | dead => simp [workerAct, hw] at h
+  | recv =>
+    simp only [workerAct, hw] at h
+    split at h
+    · cases h
+    · rename_i cmd hh q hq
+      cases cmd <;> simp only [Except.ok.injEq, Prod.mk.injEq] at h <;> obtain ⟨rfl, rfl⟩ := h
+      · exact .recvPut ⟨_, _, _, _, _, none, hh⟩ q hw hq
+      · exact .recvPut ⟨_, _, _, _, _, some _, hh⟩ q hw hq
+      · exact .recvDelete _ _ _ hw hq
+      · exact .recvUpdate _ _ _ _ hw hq
+      · exact .recvShutdown _ _ hw hq
+  | drain =>
+    simp only [workerAct, hw] at h
+    split at h
+    · cases h
+    · rename_i cmd hh q hq
+      simp only [Except.ok.injEq, Prod.mk.injEq] at h; obtain ⟨rfl, rfl⟩ := h
+      exact .drain _ _ _ hw hq
+  | present c =>
+    simp only [workerAct, hw] at h
+    split at h
+    · simp only [Except.ok.injEq, Prod.mk.injEq] at h; obtain ⟨rfl, rfl⟩ := h
+      exact .presentExists c hw
+    · split at h
+      all_goals simp only [Except.ok.injEq, Prod.mk.injEq] at h; obtain ⟨rfl, rfl⟩ := h
+      · exact .presentHeavy c hw
+      · exact .presentOk c hw
+  | space0 c =>
+    simp only [workerAct, hw] at h
+    split at h
+    · cases h
+    · rename_i hfree
+      simp only [Bool.not_eq_true, Bool.not_eq_false'] at hfree
+      split at h
+      · simp only [Except.ok.injEq, Prod.mk.injEq] at h; obtain ⟨rfl, rfl⟩ := h
+        exact .space0Fits c hw hfree (by assumption)
+      · split at h
+        · cases h
+        · simp only [Except.ok.injEq, Prod.mk.injEq] at h; obtain ⟨rfl, rfl⟩ := h
+          exact .space0Sample c _ hw hfree
+  | sampleInit c space e =>
+    simp only [workerAct, hw] at h
+    split at h
+    · cases h
+    · rcases loopDecide_spec h with ⟨rfl, h1⟩ | rfl | rfl | ⟨_, _, rfl⟩
+      · exact .initInsert c e space hw h1
+      · exact .initEmpty c e space hw
+      · exact .initReject c e space hw
+      · exact .initVictim c e space _ _ hw
+  | fill c e s space =>
+    simp only [workerAct, hw] at h
+    split at h
+    · cases h
+    · rcases loopDecide_spec h with ⟨rfl, h1⟩ | rfl | rfl | ⟨_, _, rfl⟩
+      · exact .fillInsert c e s space hw h1
+      · exact .fillEmpty c e s space hw
+      · exact .fillReject c e s space hw
+      · exact .fillVictim c e s space _ _ hw
+  | evRemove c e s victim =>
+    simp only [workerAct, hw] at h
+    split at h
+    all_goals simp only [Except.ok.injEq, Prod.mk.injEq] at h; obtain ⟨rfl, rfl⟩ := h
+    · exact .evRemoveSome c e s victim _ hw (by assumption)
+    · exact .evRemoveNone c e s victim hw (by assumption)
+  | evSub c e s id wk =>
+    simp only [workerAct, hw] at h
+    split at h
+    · cases h
+    · rename_i hfree
+      simp only [Bool.not_eq_true, Bool.not_eq_false'] at hfree
+      simp only [Except.ok.injEq, Prod.mk.injEq] at h; obtain ⟨rfl, rfl⟩ := h
+      exact .evSub c e s id wk hw hfree
+  | evStore c e s id wk =>
+    simp only [workerAct, hw, Except.ok.injEq, Prod.mk.injEq] at h; obtain ⟨rfl, rfl⟩ := h
+    exact .evStore c e s id wk hw
+  | evSpace c e s =>
+    simp only [workerAct, hw] at h
+    split at h
+    · cases h
+    · rename_i hfree
+      simp only [Bool.not_eq_true, Bool.not_eq_false'] at hfree
+      simp only [Except.ok.injEq, Prod.mk.injEq] at h; obtain ⟨rfl, rfl⟩ := h
+      exact .evSpace c e s hw hfree
+  | emptySpace c =>
+    simp only [workerAct, hw] at h
+    split at h
+    · cases h
+    · rename_i hfree
+      simp only [Bool.not_eq_true, Bool.not_eq_false'] at hfree
+      split at h
+      all_goals simp only [Except.ok.injEq, Prod.mk.injEq] at h; obtain ⟨rfl, rfl⟩ := h
+      · exact .emptyFits c hw hfree (by assumption)
+      · exact .emptyReject c hw hfree
+  | insert c =>
+    simp only [workerAct, hw, Except.ok.injEq, Prod.mk.injEq] at h; obtain ⟨rfl, rfl⟩ := h
+    exact .insert c hw
+  | add c =>
+    simp only [workerAct, hw] at h
+    split at h
+    · cases h
+    · rename_i hfree
+      simp only [Bool.not_eq_true, Bool.not_eq_false'] at hfree
+      simp only [Except.ok.injEq, Prod.mk.injEq] at h; obtain ⟨rfl, rfl⟩ := h
+      exact .add c hw hfree
+  | storePut c =>
+    simp only [workerAct, hw] at h
+    split at h
+    · simp only [Except.ok.injEq, Prod.mk.injEq] at h; obtain ⟨rfl, rfl⟩ := h
+      exact .storePutPlain c hw (by assumption)
+    · split at h
+      all_goals simp only [Except.ok.injEq, Prod.mk.injEq] at h; obtain ⟨rfl, rfl⟩ := h
+      · exact .storePutPanic c _ hw (by assumption)
+      · exact .storePutTtl c _ _ hw (by assumption)
+  | ttlPut c e =>
+    simp only [workerAct, hw] at h
+    split at h
+    · cases h
+    · rename_i hfree
+      simp only [Bool.not_eq_true, Bool.not_eq_false'] at hfree
+      simp only [Except.ok.injEq, Prod.mk.injEq] at h; obtain ⟨rfl, rfl⟩ := h
+      exact .ttlPut c e hw hfree
+  | update id w hh =>
+    simp only [workerAct, hw] at h
+    split at h
+    · cases h
+    · rename_i hfree
+      simp only [Bool.not_eq_true, Bool.not_eq_false'] at hfree
+      unfold workerUpdateWeight at h
+      cases hg : b.g.adm.kw.get? id with
+      | none =>
+        simp only [hg, Except.ok.injEq, Prod.mk.injEq] at h; obtain ⟨rfl, rfl⟩ := h
+        exact .updateAbsent id w hh hw hfree hg
+      | some wk =>
+        by_cases hc : (!inI64 (w - wk.weight) || !inI64 (b.g.adm.used + (w - wk.weight))) = true
+        · simp only [hg, hc, if_true, Except.ok.injEq, Prod.mk.injEq] at h; obtain ⟨rfl, rfl⟩ := h
+          exact .updatePanic id w hh hw hfree
+        · simp only [hg, hc] at h; obtain ⟨rfl, rfl⟩ := h
+          exact .updateApplied id w hh wk hw hfree hg
+  | delStore k hh =>
+    simp only [workerAct, hw] at h
+    split at h
+    all_goals simp only [Except.ok.injEq, Prod.mk.injEq] at h; obtain ⟨rfl, rfl⟩ := h
+    · exact .delStoreNone k hh hw
+    · exact .delStoreSome k hh _ hw (by assumption)
+  | delKw id exp hh =>
+    simp only [workerAct, hw] at h
+    split at h
+    · simp only [Except.ok.injEq, Prod.mk.injEq] at h; obtain ⟨rfl, rfl⟩ := h
+      exact .delKwSome id exp hh _ hw (by assumption)
+    · split at h
+      all_goals simp only [Except.ok.injEq, Prod.mk.injEq] at h; obtain ⟨rfl, rfl⟩ := h
+      · exact .delKwNoneTtl id _ hh hw
+      · exact .delKwNoneDone id hh hw
+  | delSub id wk exp hh =>
+    simp only [workerAct, hw] at h
+    split at h
+    · cases h
+    · rename_i hfree
+      simp only [Bool.not_eq_true, Bool.not_eq_false'] at hfree
+      split at h
+      all_goals simp only [Except.ok.injEq, Prod.mk.injEq] at h; obtain ⟨rfl, rfl⟩ := h
+      · exact .delSubTtl id wk _ hh hw hfree
+      · exact .delSubDone id wk hh hw hfree
+  | delTtl id e hh =>
+    simp only [workerAct, hw] at h
+    split at h
+    · cases h
+    · rename_i hfree
+      simp only [Bool.not_eq_true, Bool.not_eq_false'] at hfree
+      simp only [Except.ok.injEq, Prod.mk.injEq] at h; obtain ⟨rfl, rfl⟩ := h
+      exact .delTtl id e hh hw hfree
+
+
+
+/-- One action of the sweeper, as a relation. -/
+inductive STrans (b : BState) : BState → Prop where
+  | begin : b.g.sweeperAlive = true → b.sw = .begin →
+      STrans b (sweepNext { b with ttlOwner := some (secsOf b.g.now % b.g.cfg.shards) } b.g.now (secsOf b.g.now % b.g.cfg.shards) ((b.g.ttl.filter (fun p => p.1.1 == secsOf b.g.now % b.g.cfg.shards)).map (fun p => (p.1.2, p.2))))
+  | entryExpired (now shard rest id p) : rest.find? (fun p => p.1 == id) = some p → b.sw = .entry now shard rest →
+      STrans b { b with g := { b.g with ttl := b.g.ttl.del (shard, id) }, sw := .kwRemove now shard (rest.filter (fun p => p.1 != id)) id }
+  | entryKeep (now shard rest id) : b.sw = .entry now shard rest →
+      STrans b (sweepNext b now shard (rest.filter (fun p => p.1 != id)))
+  | kwRemoveSome (now shard rest id wk) : b.g.adm.kw.get? id = some wk → b.sw = .kwRemove now shard rest id →
+      STrans b { b with g := { b.g with adm := { b.g.adm with kw := b.g.adm.kw.del id } }, sw := .sub now shard rest id wk }
+  | kwRemoveNone (now shard rest id) : b.g.adm.kw.get? id = none → b.sw = .kwRemove now shard rest id →
+      STrans b (sweepNext b now shard rest)
+  | sub (now shard rest id wk) : wuFree b .sweeper = true → b.sw = .sub now shard rest id wk →
+      STrans b { b with g := { b.g with adm := { b.g.adm with used := b.g.adm.used - wk.weight } }, wuOwner := some .sweeper, sw := .store now shard rest id wk }
+  | store (now shard rest id wk) : b.sw = .store now shard rest id wk →
+      STrans b (sweepNext { b with g := applyEvict b.g (id, wk.key, wk.weight), wuOwner := none } now shard rest)
+  | fin : b.sw = .fin → STrans b { b with sw := .begin, g := { b.g with sweeperAlive := b.g.sweeperKeep } }
+
+theorem sweeperAct_trans {b b' : BState} {v : Option Nat} (h : sweeperAct b v = .ok b') : STrans b b' := by
+  cases hs : b.sw with
+  | begin =>
+    simp only [sweeperAct, hs] at h
+    split at h
+    · cases h
+    · rename_i ha
+      simp only [Bool.not_eq_true, Bool.not_eq_false'] at ha
+      simp only [Except.ok.injEq] at h; subst h
+      exact .begin ha hs
+  | entry now shard rest =>
+    simp only [sweeperAct, hs] at h
+    split at h
+    · cases h
+    · split at h
+      · cases h
+      · split at h
+        all_goals simp only [Except.ok.injEq] at h; subst h
+        · exact .entryExpired now shard rest _ _ (by assumption) hs
+        · exact .entryKeep now shard rest _ hs
+  | kwRemove now shard rest id =>
+    simp only [sweeperAct, hs] at h
+    split at h
+    all_goals simp only [Except.ok.injEq] at h; subst h
+    · exact .kwRemoveSome now shard rest id _ (by assumption) hs
+    · exact .kwRemoveNone now shard rest id (by assumption) hs
+  | sub now shard rest id wk =>
+    simp only [sweeperAct, hs] at h
+    split at h
+    · cases h
+    · rename_i ha
+      simp only [Bool.not_eq_true, Bool.not_eq_false'] at ha
+      simp only [Except.ok.injEq] at h; subst h
+      exact .sub now shard rest id wk ha hs
+  | store now shard rest id wk =>
+    simp only [sweeperAct, hs, Except.ok.injEq] at h; subst h
+    exact .store now shard rest id wk hs
+  | fin =>
+    simp only [sweeperAct, hs, Except.ok.injEq] at h; subst h
+    exact .fin hs
+
+/-- client positions reached from `start` that carry nothing the invariant talks about -/
+def CPc.plain : CPc → Prop
+  | .delMark _ | .getStore _ | .weightRead | .upUpdate _ _ _ _ _ => True
+  | _ => False
+
+/-- the ways the tail of `put_or_update` can end -/
+theorem upAfterIndex_spec (b : BState) (i id : Nat) (uw : Option Int) :
+    (∃ out, upAfterIndex b i id uw = finishCall b i out) ∨
+    (∃ w, 0 < w ∧ upAfterIndex b i id uw = setClient b i (.send (.updateWeight id w))) ∨
+    upAfterIndex b i id uw = spotFinish b i .accepted := by
+  unfold upAfterIndex
+  split
+  · split
+    · exact Or.inl ⟨_, rfl⟩
+    · split
+      · exact Or.inl ⟨_, rfl⟩
+      · rename_i w _ hw
+        exact Or.inr (Or.inl ⟨w, by omega, rfl⟩)
+  · exact Or.inr (Or.inr rfl)
+
+/-- One action of client `i`, as a relation. -/
+inductive CTrans (b : BState) (i : Nat) : BState → Prop where
+  | finish (pc out) : b.cl[i]? = some pc → CTrans b i (finishCall b i out)
+  | finishStats (pc out st) : b.cl[i]? = some pc → CTrans b i (finishCall { b with g := { b.g with stats := st } } i out)
+  | spot (pc st) : b.cl[i]? = some pc → CTrans b i (spotFinish b i st)
+  | startPut (k v w ttl) : b.cl[i]? = some (.start (.putW k v w ttl)) → 0 < w → CTrans b i (setClient b i (.putPresent k v w ttl))
+  | startPlain (r pc') : b.cl[i]? = some (.start r) → pc'.plain → CTrans b i (setClient b i pc')
+  | putPresentOk (k v w ttl) : b.cl[i]? = some (.putPresent k v w ttl) → CTrans b i (setClient b i (.idNext k v w ttl))
+  | idNext (k v w ttl) : b.cl[i]? = some (.idNext k v w ttl) →
+      CTrans b i (setClient { b with g := { b.g with nextId := b.g.nextId + 1 } } i (.send (match ttl with | some t => Cmd.putTtl b.g.nextId (b.g.cfg.hashOf k) w k v t | none => Cmd.put b.g.nextId (b.g.cfg.hashOf k) w k v)))
+  | sendOk (cmd) : b.cl[i]? = some (.send cmd) →
+      CTrans b i (finishCall { b with g := { b.g with queue := b.g.queue ++ [(cmd, some b.g.acks.length)], acks := b.g.acks ++ [.pending] } } i (.ack b.g.acks.length .pending))
+  | delMark (k) : b.cl[i]? = some (.delMark k) →
+      CTrans b i (setClient { b with g := { b.g with store := match b.g.store.get? k with | some e => b.g.store.set k { e with soft := true } | none => b.g.store } } i (.send (.delete k)))
+  | getHit (k e) : b.cl[i]? = some (.getStore k) → b.g.store.get? k = some e → e.alive b.g.now = true →
+      CTrans b i (setClient { b with g := { b.g with stats := { b.g.stats with hits := b.g.stats.hits + 1 } } } i (.getPool k e.value))
+  | getPool (k v g1 o o') : b.cl[i]? = some (.getPool k v) → poolAdd b.g (b.g.cfg.hashOf k) o = .ok (g1, o') →
+      CTrans b i (finishCall { b with g := g1 } i (.value (some v)))
+  | upPut (k v w ttl rm val weight) : b.cl[i]? = some (.upUpdate k v w ttl rm) → 0 < weight →
+      CTrans b i (setClient b i (.idNext k val weight ttl))
+  | upUpdate (k v w ttl rm e newExpiry uw) : b.cl[i]? = some (.upUpdate k v w ttl rm) → b.g.store.get? k = some e →
+      CTrans b i (setClient { b with g := { b.g with store := b.g.store.set k { e with expiry := newExpiry, value := v.getD e.value } } } i (.upWeightOf e.id uw e.expiry newExpiry))
+  | upWeightOfTtl (id uw old new pc') : b.cl[i]? = some (.upWeightOf id uw old new) →
+      pc'.usedId? = some id → pc'.freshId? = none → pc'.pos → CTrans b i (setClient b i pc')
+  | upAfterSame (id uw old new) : b.cl[i]? = some (.upWeightOf id uw old new) → CTrans b i (upAfterIndex b i id uw)
+  | upAfterPut (pc id e uw) : b.cl[i]? = some pc → pc.usedId? = some id → ttlFree b (shardOf b.g.cfg e) = true →
+      CTrans b i (upAfterIndex { b with g := ttlPut b.g id e } i id uw)
+  | upAfterDelete (id e uw) : b.cl[i]? = some (.upTtlDelete id e uw) → ttlFree b (shardOf b.g.cfg e) = true →
+      CTrans b i (upAfterIndex { b with g := ttlDelete b.g id e } i id uw)
+  | upTtlRemove (id old new uw) : b.cl[i]? = some (.upTtlRemove id old new uw) → ttlFree b (shardOf b.g.cfg old) = true →
+      CTrans b i (setClient { b with g := ttlDelete b.g id old } i (.upTtlInsert id new uw))
+
+theorem clientAct_trans {b b' : BState} {i : Nat} {o o' : Oracle} (h : clientAct b i o = .ok (b', o')) :
+    CTrans b i b' := by
+  unfold clientAct at h
+  simp only [] at h
+  split at h
+  · cases h
+  · rename_i pc hpc
+    cases pc with
+    | idle => cases h
+    | start r =>
+      simp only [] at h
+      split at h
+      · cases r <;> simp only [Except.ok.injEq, Prod.mk.injEq] at h <;> obtain ⟨rfl, rfl⟩ := h
+        · exact .finish _ _ hpc
+        · exact .finish _ _ hpc
+        · exact .finish _ _ hpc
+        · exact .startPlain _ _ hpc trivial
+        · exact .finish _ _ hpc
+      · cases r <;> simp only [] at h
+        · split at h
+          all_goals simp only [Except.ok.injEq, Prod.mk.injEq] at h; obtain ⟨rfl, rfl⟩ := h
+          · exact .finish _ _ hpc
+          · exact .startPut _ _ _ _ hpc (by omega)
+        all_goals simp only [Except.ok.injEq, Prod.mk.injEq] at h; obtain ⟨rfl, rfl⟩ := h
+        all_goals exact .startPlain _ _ hpc trivial
+    | putPresent k v w ttl =>
+      simp only [] at h
+      split at h
+      all_goals simp only [Except.ok.injEq, Prod.mk.injEq] at h; obtain ⟨rfl, rfl⟩ := h
+      · exact .spot _ _ hpc
+      · exact .putPresentOk _ _ _ _ hpc
+    | idNext k v w ttl =>
+      simp only [Except.ok.injEq, Prod.mk.injEq] at h; obtain ⟨rfl, rfl⟩ := h
+      exact .idNext _ _ _ _ hpc
+    | send cmd =>
+      simp only [] at h
+      split at h
+      · rename_i b1 hs
+        simp only [Except.ok.injEq, Prod.mk.injEq] at h; obtain ⟨rfl, rfl⟩ := h
+        unfold sendAct at hs
+        simp only [] at hs
+        split at hs
+        · simp only [Except.ok.injEq] at hs; subst hs
+          exact .finish _ _ hpc
+        · split at hs
+          · cases hs
+          · simp only [Except.ok.injEq] at hs; subst hs
+            exact .sendOk _ hpc
+      · cases h
+    | delMark k =>
+      simp only [Except.ok.injEq, Prod.mk.injEq] at h; obtain ⟨rfl, rfl⟩ := h
+      exact .delMark _ hpc
+    | getStore k =>
+      simp only [] at h
+      split at h
+      · split at h
+        all_goals simp only [Except.ok.injEq, Prod.mk.injEq] at h; obtain ⟨rfl, rfl⟩ := h
+        · exact .getHit _ _ hpc (by assumption) (by assumption)
+        · exact .finishStats _ _ _ hpc
+      · simp only [Except.ok.injEq, Prod.mk.injEq] at h; obtain ⟨rfl, rfl⟩ := h
+        exact .finishStats _ _ _ hpc
+    | getPool k v =>
+      simp only [] at h
+      split at h
+      · simp only [Except.ok.injEq, Prod.mk.injEq] at h; obtain ⟨rfl, rfl⟩ := h
+        exact .getPool _ _ _ _ _ hpc (by assumption)
+      · cases h
+    | weightRead =>
+      simp only [] at h
+      split at h
+      · cases h
+      · simp only [Except.ok.injEq, Prod.mk.injEq] at h; obtain ⟨rfl, rfl⟩ := h
+        exact .finish _ _ hpc
+    | upUpdate k v w ttl rm =>
+      simp only [] at h
+      split at h
+      · split at h
+        · split at h
+          all_goals simp only [Except.ok.injEq, Prod.mk.injEq] at h; obtain ⟨rfl, rfl⟩ := h
+          · exact .finish _ _ hpc
+          · exact .upPut _ _ _ _ _ _ _ hpc (by omega)
+        · simp only [Except.ok.injEq, Prod.mk.injEq] at h; obtain ⟨rfl, rfl⟩ := h
+          exact .finish _ _ hpc
+      · split at h
+        all_goals simp only [Except.ok.injEq, Prod.mk.injEq] at h; obtain ⟨rfl, rfl⟩ := h
+        · exact .finish _ _ hpc
+        · exact .upUpdate _ _ _ _ _ _ _ _ hpc (by assumption)
+    | upWeightOf id uw old new =>
+      simp only [] at h
+      split at h
+      all_goals simp only [Except.ok.injEq, Prod.mk.injEq] at h; obtain ⟨rfl, rfl⟩ := h
+      · exact .upWeightOfTtl _ _ _ _ _ hpc rfl rfl trivial
+      · exact .upWeightOfTtl _ _ _ _ _ hpc rfl rfl trivial
+      · exact .upWeightOfTtl _ _ _ _ _ hpc rfl rfl trivial
+      · exact .upAfterSame _ _ _ _ hpc
+    | upTtlPut id e uw =>
+      simp only [] at h
+      split at h
+      · cases h
+      · rename_i ha
+        simp only [Bool.not_eq_true, Bool.not_eq_false'] at ha
+        simp only [Except.ok.injEq, Prod.mk.injEq] at h; obtain ⟨rfl, rfl⟩ := h
+        exact .upAfterPut _ _ _ _ hpc rfl ha
+    | upTtlDelete id e uw =>
+      simp only [] at h
+      split at h
+      · cases h
+      · rename_i ha
+        simp only [Bool.not_eq_true, Bool.not_eq_false'] at ha
+        simp only [Except.ok.injEq, Prod.mk.injEq] at h; obtain ⟨rfl, rfl⟩ := h
+        exact .upAfterDelete _ _ _ hpc ha
+    | upTtlRemove id old new uw =>
+      simp only [] at h
+      split at h
+      · cases h
+      · rename_i ha
+        simp only [Bool.not_eq_true, Bool.not_eq_false'] at ha
+        simp only [Except.ok.injEq, Prod.mk.injEq] at h; obtain ⟨rfl, rfl⟩ := h
+        exact .upTtlRemove _ _ _ _ hpc ha
+    | upTtlInsert id new uw =>
+      simp only [] at h
+      split at h
+      · cases h
+      · rename_i ha
+        simp only [Bool.not_eq_true, Bool.not_eq_false'] at ha
+        simp only [Except.ok.injEq, Prod.mk.injEq] at h; obtain ⟨rfl, rfl⟩ := h
+        exact .upAfterPut _ _ _ _ hpc rfl ha
+
 end B
 end Cached
